@@ -81,6 +81,11 @@ class PipeWorld(World):
             i = it.rv(it.eval(args[0], frame))
             return PyVec([Obj("fastscapelib::neighbor", {"idx": j, "distance": 1.0, "status": 0})
                           for j in self.adj[i]])
+        if nm in ("nodes_status", "nodes_status_impl") and "grid" in cls:
+            # the grid's own node statuses are independent of the graph's base levels: all core here
+            if args:
+                return 0
+            return PyVec([0] * len(self.adj))
         if nm == "neighbors_indices" and "grid" in cls:
             return PyVec(list(self.adj[it.rv(it.eval(args[0], frame))]))
         if nm == "get_basin_graph":
